@@ -10,7 +10,14 @@ mode 'client' : the real server loop (accepter / handle_request / serve_client t
                 process, real SyncManager-style proxies created with the real BaseManager
                 machinery over real connections; proxies are copied by pickling, dropped, and
                 called; the tables are read directly after every operation.
-mode 'procs'  : (thorough tier) a real manager process, proxies passed to child processes.
+mode 'procs'  : a real manager process, proxies passed to child processes (forked, or started
+                with the spawn / forkserver method with the proxy as a Process argument).
+mode 'life'   : the real SyncManager with the typeids it registers itself (Queue, JoinableQueue,
+                Event, Lock, ..., list, dict, Value, Array, Namespace): proxies are created, handed
+                to children started with fork / spawn / forkserver as Process arguments, used there
+                and in the parent (the same statements run on a local twin object), dropped and the
+                children exit in a scripted order; after every step the reference counts are read
+                through debug_info().
 
 stdin: JSON {mode, cases}; stdout: last line JSON results.  Idents (hex of id(obj)) are renamed
 to 1, 2, 3 ... in order of first appearance; referents are kept alive so that an address is
@@ -27,7 +34,7 @@ import sys
 import threading
 
 from billiard import connection, managers, process, util
-from billiard.managers import Server, SyncManager, BaseManager, BaseProxy, ListProxy, Token
+from billiard.managers import Server, SyncManager, BaseManager, BaseProxy, ListProxy, Token, AutoProxy
 
 KEY = b'verif-key'
 
@@ -345,6 +352,11 @@ InprocManager.register('Shelf', Shelf, ListProxy, exposed=LIST_EXPOSED,
                        method_to_typeid={'clone': 'list', 'me': 'ShelfRef'})
 InprocManager.register('ShelfRef', None, ListProxy, exposed=('append', '__len__', '__getitem__'),
                        create_method=False)
+# a typeid registered the way SyncManager registers Queue / JoinableQueue / AsyncResult: no proxy
+# type, no `exposed` tuple -- proxies are built by AutoProxy(), exposed = public_methods(obj)
+InprocManager.register('AList', list)
+REGISTRY['AList'] = InprocManager._registry['AList']
+assert REGISTRY['AList'][3] is AutoProxy and REGISTRY['AList'][1] is None
 
 
 def client_outcome(fn):
@@ -362,6 +374,15 @@ def _do_create(m, typ, args):
     if typ in m._registry and hasattr(m, typ):
         return getattr(m, typ)(*args)
     return m._create(typ, *args)      # unknown typeid: straight to the server
+
+
+def proxy_call(p, meth, args):
+    """a call as the user makes it: through the method MakeProxyType generated for an AutoProxy
+    class when the name is one of those it offers, otherwise (names offered by no class, and the
+    hand-written proxy classes whose methods have their own signatures) through _callmethod"""
+    if getattr(p, '_isauto', False) and meth in type(p)._exposed_ and meth in vars(type(p)):
+        return getattr(p, meth)(*args)
+    return p._callmethod(meth, args)
 
 
 def client_op(m, srv, ids, proxies, op):
@@ -421,7 +442,7 @@ def client_op(m, srv, ids, proxies, op):
         _, k, meth, args = op
         if k >= len(proxies):
             return ['noop']
-        res, v = client_outcome(lambda: proxies[k]._callmethod(meth, tuple(dec_arg(a) for a in args)))
+        res, v = client_outcome(lambda: proxy_call(proxies[k], meth, tuple(dec_arg(a) for a in args)))
         if res[0] != 'ok':
             return res
         if isinstance(v, BaseProxy):
@@ -485,7 +506,7 @@ def worker_main(conn, inherited):
             conn.send(['ok'])
         elif k == 'call':
             _, idx, meth, args = cmd
-            res, v = client_outcome(lambda: local[idx]._callmethod(meth, tuple(dec_arg(a) for a in args)))
+            res, v = client_outcome(lambda: proxy_call(local[idx], meth, tuple(dec_arg(a) for a in args)))
             if res[0] == 'ok':
                 if isinstance(v, BaseProxy):
                     local.append(v)
@@ -582,10 +603,10 @@ def run_procs_case(case):
                 v = None
                 obs = res
             elif kind == 'spawn':             # proxy k (the parent's) is a Process argument of a
-                _, k, pid = op                # spawn-context child: RebuildProxy(incref=False)
+                k, pid = op[1], op[2]         # spawn / forkserver child: RebuildProxy(incref=False)
                 if k >= len(handles) or handles[k] != 10:
                     raise RuntimeError('spawn: proxy %d is not the parent\'s' % k)
-                sctx = billiard.get_context('spawn')      # + after-fork hook in the child
+                sctx = billiard.get_context(op[3] if len(op) > 3 else 'spawn')   # + after-fork hook there
                 a, b = sctx.Pipe(duplex=True)
                 inh = [mine[local_index(k)]]
                 import mgr_driver             # spawn targets must live in an importable module
@@ -629,7 +650,7 @@ def run_procs_case(case):
                 if k < len(handles):
                     if handles[k] == 10:
                         res, v = client_outcome(
-                            lambda: mine[local_index(k)]._callmethod(meth, tuple(dec_arg(a) for a in args)))
+                            lambda: proxy_call(mine[local_index(k)], meth, tuple(dec_arg(a) for a in args)))
                         if res[0] == 'ok':
                             if isinstance(v, BaseProxy):
                                 mine.append(v)
@@ -686,6 +707,153 @@ def run_procs_case(case):
     return out
 
 
+
+# ------------------------------------------------------------------- life mode
+# typeids of the real SyncManager: constructor arguments, the statements a child runs through its
+# proxy, the statements the parent runs afterwards through its own proxy.  The same statements
+# are run on a local twin built by the registered callable: "behaves like the local object".
+def _ns_set(o):
+    o.x = 5
+
+
+LIFE_TYPES = {
+    'Queue': ((), [lambda o: o.put(5), lambda o: o.put(6), lambda o: o.qsize(), lambda o: o.get(),
+                   lambda o: o.empty()],
+              [lambda o: o.qsize(), lambda o: o.get_nowait(), lambda o: o.empty(), lambda o: o.get_nowait()]),
+    'JoinableQueue': ((), [lambda o: o.put(1), lambda o: o.get(), lambda o: o.task_done(), lambda o: o.join(),
+                           lambda o: o.put(2)],
+                      [lambda o: o.qsize(), lambda o: o.full(), lambda o: o.task_done(), lambda o: o.task_done()]),
+    'Event': ((), [lambda o: o.is_set(), lambda o: o.set(), lambda o: o.is_set()],
+              [lambda o: o.wait(0), lambda o: o.clear(), lambda o: o.is_set()]),
+    'Lock': ((), [lambda o: o.acquire(False), lambda o: o.acquire(False), lambda o: o.release()],
+             [lambda o: o.acquire(False), lambda o: o.release(), lambda o: o.release()]),
+    'RLock': ((), [lambda o: o.acquire(False), lambda o: o.acquire(False), lambda o: o.release(),
+                   lambda o: o.release()], []),
+    'Semaphore': ((2,), [lambda o: o.acquire(False), lambda o: o.acquire(False), lambda o: o.acquire(False),
+                         lambda o: o.release()],
+                  [lambda o: o.acquire(False), lambda o: o.acquire(False)]),
+    'BoundedSemaphore': ((1,), [lambda o: o.acquire(False), lambda o: o.release(), lambda o: o.release()],
+                         [lambda o: o.acquire(False)]),
+    'Condition': ((), [lambda o: o.acquire(), lambda o: o.notify_all(), lambda o: o.release(),
+                       lambda o: o.notify()], []),
+    'Barrier': ((1,), [lambda o: o.wait(), lambda o: o.parties, lambda o: o.n_waiting], [lambda o: o.broken]),
+    'list': (([1, 2],), [lambda o: o.append(3), lambda o: o.pop(0), lambda o: o[5]],
+             [lambda o: len(o), lambda o: o[0], lambda o: o.index(9)]),
+    'dict': (({1: 2},), [lambda o: o.setdefault(3, 4), lambda o: o[7]],
+             [lambda o: sorted(o.items()), lambda o: o.pop(1), lambda o: len(o)]),
+    'Value': (('i', 3), [lambda o: o.get(), lambda o: o.set(9)], [lambda o: o.value]),
+    'Array': (('i', [1, 2, 3]), [lambda o: o[0], lambda o: o.__setitem__(1, 8), lambda o: o[3]],
+              [lambda o: len(o), lambda o: o[1]]),
+    'Namespace': ((), [_ns_set, lambda o: o.x, lambda o: o.y], [lambda o: o.x]),
+}
+
+
+def life_run(ops, o):
+    out = []
+    for f in ops:
+        try:
+            out.append(['ret', repr(f(o))])
+        except managers.RemoteError as e:
+            out.append(['fail', tb_kind(str(e.args[0]))])
+        except Exception as e:
+            out.append(['raise', exn_kind(type(e).__name__)])
+    return out
+
+
+def life_child(conn, held):
+    """a child that got `held` = [[typeid, proxy] ...] as a Process argument (or by fork)"""
+    gc.disable()
+    while True:
+        cmd = conn.recv()
+        if cmd[0] == 'ping':
+            conn.send(['ok', len(held)])
+        elif cmd[0] == 'use':          # cmd[1]: positions in `held`
+            conn.send([life_run(LIFE_TYPES[held[j][0]][1], held[j][1]) for j in cmd[1]])
+        elif cmd[0] == 'exit':            # orderly: the exit handlers finalise every proxy
+            conn.send(['ok'])
+            conn.close()
+            sys.exit(0)
+
+
+def run_life_case(case):
+    """case: list of steps  ['create', typeid] | ['start', method, pid, [object index ...]] |
+    ['use', pid, [object index ...]] | ['puse', index] | ['drop', index] | ['exit', pid].
+    Object index = position of its 'create' step among the creates.  Returned per step: what the
+    step observed, [[object index, refcount] ...] of the objects now in the server, number_of_objects."""
+    import billiard
+    import mgr_driver                          # spawn / forkserver targets live in a module
+    process.current_process().authkey = KEY
+    m = SyncManager(authkey=KEY)
+    m.start()
+    objs = []                # [typeid, ident, parent's proxy or None, local twin]
+    kids = {}                # pid -> (process, connection, [object index ...])
+    out = []
+
+    def ask(pid, cmd):
+        c = kids[pid][1]
+        c.send(cmd)
+        if not c.poll(30):
+            raise RuntimeError('child %s does not answer %r' % (pid, cmd[0]))
+        return c.recv()
+
+    def counts():
+        ents = re.findall(r'^  (\w+):\s+refcount=(-?\d+)\n', m._debug_info(), re.M)
+        idx = {}
+        for i, ob in enumerate(objs):
+            idx.setdefault(ob[1], i)      # (an address is reused only after the first owner is gone)
+        return sorted([idx.get(ident, -1), int(rc)] for ident, rc in ents)
+
+    try:
+        for st in case:
+            k = st[0]
+            obs = ['ok']
+            if k == 'create':
+                typ = st[1]
+                args = LIFE_TYPES[typ][0]
+                p = getattr(m, typ)(*args)
+                # the local twin: the registered callable on the same arguments
+                twin = SyncManager._registry[typ][0](*copy.deepcopy(args))
+                objs.append([typ, p._token.id, p, twin])
+                p = None
+            elif k == 'start':
+                _, method, pid, idxs = st
+                ctx = billiard.get_context(method)
+                a, b = ctx.Pipe(duplex=True)
+                held = [[objs[i][0], objs[i][2]] for i in idxs]
+                pr = ctx.Process(target=mgr_driver.life_child, args=(b, held))
+                pr.daemon = True
+                pr.start()
+                del held[:]               # (billiard keeps Process._args alive in the parent)
+                b.close()
+                kids[pid] = (pr, a, list(idxs))
+                obs = ask(pid, ('ping',))
+            elif k == 'use':              # the child's statements, and the same on the twins
+                pid = st[1]
+                got = ask(pid, ('use', [kids[pid][2].index(i) for i in st[2]]))
+                want = [life_run(LIFE_TYPES[objs[i][0]][1], objs[i][3]) for i in st[2]]
+                obs = ['use', got, want]
+            elif k == 'puse':             # the parent's statements through its own proxy
+                i = st[1]
+                obs = ['use', [life_run(LIFE_TYPES[objs[i][0]][2], objs[i][2])],
+                       [life_run(LIFE_TYPES[objs[i][0]][2], objs[i][3])]]
+            elif k == 'drop':
+                objs[st[1]][2] = None     # last reference: util.Finalize runs BaseProxy._decref
+                gc.collect()
+            elif k == 'exit':
+                pid = st[1]
+                ask(pid, ('exit',))
+                kids[pid][0].join(30)
+                obs = ['exit', kids[pid][0].exitcode]
+                del kids[pid]
+            out.append(dict(obs=obs, rc=counts(), numobj=m._number_of_objects()))
+    finally:
+        for pr, c, _ in kids.values():
+            if pr.is_alive():
+                pr.terminate()
+        m.shutdown()
+    return out
+
+
 def main():
     # server threads and clients share this process: a cyclic-GC run inside the accepter thread
     # could finalise a proxy there (its _decref connects to the server -> deadlock); collect
@@ -720,6 +888,8 @@ def main():
                 signal.setitimer(signal.ITIMER_REAL, 0)
     elif mode == 'procs':
         res = [run_procs_case(c) for c in req['cases']]
+    elif mode == 'life':
+        res = [run_life_case(c) for c in req['cases']]
     else:
         raise SystemExit('unknown mode')
     sys.stdout.flush()
